@@ -89,6 +89,17 @@ CLAIMED = {
             "interleavings, deep structural comparison of template and input frames before/after, re-run spy, fresh interpreters with PYTHONHASHSEED in {0,1,2,random}. The universe column "
             "order (the repaired hash-order defect) is a function of the inputs only.",
             "DESIGN 7 C11"),
+    "C09": ("17 theorems about the run-level model (Bt/Engine/Backtest.lean: btDay = loop body of Backtest.run, btRun, paperStep/paperUpdates = the stepping of a sub-strategy's shadow "
+            "copy inside StrategyBase.update, clockDates): for EVERY sequence of update(date) calls a child receives (any repetitions) the shadow copy ends where the stand-alone loop over the "
+            "child's clock dates ends, incl. raising the same error (`paperUpdates_eq_clock`); it is independent of anything done to the real child (`paper_indep_of_child`, any interleaving of "
+            "updates with arbitrary operations, any state type); on the synthetic first row a calendar-gated stack leaves the tree unchanged (`gated_stack_noop`, via C12 `index0_false` and "
+            "C13's stack semantics) so `btDay = updRoot` there (`synthetic_row_noop`, via C08 idempotence); main theorem `paper_eq_standalone`: shadow copy = btRun of the same definition, "
+            "same data, same capital, as Except values; `child_index_eq` date for date (price and recorded price rows at every prefix); `child_price_is_paper_price` (what the parent reads "
+            "and what is recorded is the shadow copy's price, no circularity); Lean witnesses that an ungated head (RunOnce-like) does differ - the property's documented out-of-scope case. "
+            "Correspondence: `btday` (every day of the loop for the backtest's root and every shadow copy re-executed by btDay from the real pre-state: run/no-run decision and both updates, "
+            "bit-exact), `paperseq` (dates on which the real shadow copy was stepped vs clockDates over the real call sequence with all its repetitions); monitor: nested vs stand-alone "
+            "index and the parent's universe column, bit for bit, over generated parents / funding schedules / bankrupt shadow copies.",
+            "DESIGN 7 C09"),
 }
 # pid -> reason it is not claimed (yet)
 NOT_YET = {}
